@@ -386,6 +386,8 @@ class Arr(object):
 
     def __setitem__(self, index, value):
         where = getattr(self, '_where', None)
+        if self.kind == 'i':
+            check_int_store(self, value)
         if isinstance(index, Arr) and index.size and all(isinstance(v, (bool, Unk)) for v in index.items()) \
                 and index.shape == self.shape:
             vals = broadcast_to(value, self.shape).items() if isinstance(value, Arr) else [value] * self.size
@@ -574,6 +576,8 @@ class FlatView(object):
 
     def __setitem__(self, idx, value):
         a = self.arr
+        if a.kind == 'i':
+            check_int_store(a, value)
         if isinstance(idx, Arr):
             vals = broadcast_to(value, idx.shape).items() if isinstance(value, Arr) else [value] * idx.size
             for i, v in zip(idx.items(), vals):
@@ -587,6 +591,42 @@ class FlatView(object):
 
     def __iter__(self):
         return iter(self.arr.items())
+
+
+CAST_HOOK = None        # callable(arr, value, kind): a rule that wants to judge truncating stores itself
+
+
+def elem_dtype_kind(v):
+    """'i' / 'f' / 'c' for a value whose dtype kind is known, None when it is not."""
+    from .algebra import Poly
+    if isinstance(v, (bool, int)):
+        return 'i'
+    if isinstance(v, Fr):
+        return 'i' if v.denominator == 1 else 'f'
+    k = getattr(v, 'kind', None)
+    if isinstance(k, str) and k in ('i', 'b', 'f', 'c', 'z'):
+        return {'b': 'i', 'z': 'c'}.get(k, k)
+    if type(v).__name__ in ('IdxAny', 'UnkInt'):
+        return 'i'
+    if isinstance(v, Poly):
+        c = concrete_real(v)
+        if c is not None:
+            return 'i' if Fr(c).denominator == 1 else 'f'
+        return 'f' if v.is_real() else 'c'
+    return None
+
+
+def check_int_store(arr, value):
+    """A store into an integer array casts: a float / complex value is truncated silently by numpy."""
+    vals = value.items() if isinstance(value, Arr) else [value]
+    for v in vals:
+        k = elem_dtype_kind(v)
+        if k in ('f', 'c'):
+            if CAST_HOOK is not None:
+                CAST_HOOK(arr, v, k)
+                return
+            raise AnalysisError('store of a %s value (%r) into an integer array: the truncating cast is not modelled'
+                                % ({'f': 'float', 'c': 'complex'}[k], v))
 
 
 def flat_get(a, i):
